@@ -718,12 +718,25 @@ func (adb *AccountsDB) RevertToSnapshot(snapshot int) error {
 			if err != nil {
 				return err
 			}
+
+			adb.holdRevertedDataTrie(account)
 		}
 	}
 
 	adb.entries = adb.entries[:snapshot]
 
 	return nil
+}
+
+// holdRevertedDataTrie makes the data trie of a reverted account the held one again: if the account was removed and
+// created again in the reverted window, the held trie is the one of the dropped version
+func (adb *AccountsDB) holdRevertedDataTrie(account vmcommon.AccountHandler) {
+	baseAcc, ok := account.(baseAccountHandler)
+	if !ok || check.IfNil(baseAcc.DataTrie()) {
+		return
+	}
+
+	adb.dataTries.Put(baseAcc.AddressBytes(), baseAcc.DataTrie())
 }
 
 // JournalLen will return the number of entries
